@@ -85,6 +85,12 @@ MUTANTS = {
         ('bs-duration', 'dashlive/server/events/scte35_events.py', '        duration = self.duration * MPEG_TIMEBASE // self.timescale', '        duration = self.duration * self.timescale // MPEG_TIMEBASE'),
         ('bs-auto-return', 'dashlive/server/events/scte35_events.py', '        auto_return = (event_id & 1) == 0', '        auto_return = (event_id & 1) == 1'),
         ('bs-avail', 'dashlive/server/events/scte35_events.py', '            avail_num = 1 + (event_id // 2)', '            avail_num = 2 + (event_id // 2)'),
+        ('st-reserved', 'dashlive/scte35/splice_time.py', "            w.write(6, 'reserved', 0x3F)", "            w.write(7, 'reserved', 0x7F)"),
+        ('bd-width', 'dashlive/scte35/break_duration.py', "        w.write(33, 'duration')", "        w.write(32, 'duration')"),
+        ('si-order', 'dashlive/scte35/splice_insert.py', "        w.write(8, 'avail_num')\n        w.write(8, 'avails_expected')", "        w.write(8, 'avails_expected')\n        w.write(8, 'avail_num')"),
+        ('si-parse-flag', 'dashlive/scte35/splice_insert.py', "        if kwargs['duration_flag']:\n            kwargs['break_duration'] = BreakDuration.parse(r)", "        if kwargs['splice_immediate_flag']:\n            kwargs['break_duration'] = BreakDuration.parse(r)"),
+        ('seg-subseg', 'dashlive/scte35/descriptors.py', "        if self.segmentation_type in {0x34, 0x36, 0x38, 0x3A}:\n            w.write(8, 'sub_segment_num')", "        if self.segmentation_type in {0x34, 0x36, 0x38}:\n            w.write(8, 'sub_segment_num')"),
+        ('seg-duration-32', 'dashlive/scte35/descriptors.py', "            w.write(40, 'segmentation_duration')", "            w.write(32, 'segmentation_duration')"),
         ('emsg-start-floor', 'dashlive/server/events/repeating_event_base.py', 'seg_end = (seg_end * self.timescale) // representation.timescale', 'seg_end = (seg_end * self.timescale) // representation.timescale + 1'),
     ],
     'C01': [
